@@ -339,15 +339,4 @@ def check_sha256(ctx, progs, rule="compress-eq", cases=None, thorough=False):
             ctx.check(okk, rule, inst, "state' == SHA-256 compression of %d consecutive blocks as value graphs (%d graph nodes); the message is not written" % (nb, nnodes),
                       "%s (%s) does not compute the SHA-256 compression function over a run of %d blocks: state words %s differ%s" % (path, cfg, nb, x, "; the message buffer is modified" if wrote else ""), where=where, key=key)
     # a function whose every compared run (below, at and above its batch size, with a tail) equals the specification: the
-    # for-all-lengths loop rules (block-run / stride) may fail to DERIVE their invariant on an unfamiliar loop shape; that is
-    # then recorded as not decided for other lengths instead of being reported as a violation
-    want_runs = {p_: len(q_) + (len(m_) if thorough else 0) for c_, p_, q_, m_ in CASES for _ in [0]}
-    for (cfg, path), oks in per_fn.items():
-        nruns = [len(q_) + (len(m_) if thorough else 0) for c_, p_, q_, m_ in CASES if (c_, p_) == (cfg, path)]
-        if nruns and len(oks) == nruns[0] and all(oks) and len(oks) >= 2:
-            why = "%s equals the specification as a value graph on every compared run length (compress-eq)" % path
-            ctx.subsume("block-run:%s" % path, why)
-            short = path.split("::")[-2]
-            ctx.subsume("stride:%s:" % short, why)
-            ctx.subsume("delegate:impl256::digest_block", why) if False else None
     return n
